@@ -357,10 +357,18 @@ func (s *Netceptor) DialContext(ctx context.Context, node string, service string
 		case <-okChan:
 			return
 		case <-cctx.Done():
-			pcClose()
 		case <-s.context.Done():
-			pcClose()
 		}
+		// The context only governs the dial. If it is cancelled right after the dial
+		// succeeded, both okChan and cctx.Done() may be ready when this goroutine gets
+		// to run, and select picks one at random: never close the socket of an
+		// established connection here.
+		select {
+		case <-okChan:
+			return
+		default:
+		}
+		pcClose()
 	}()
 	doneChan := make(chan struct{}, 1)
 	go monitorUnreachable(pc, doneChan, rAddr, ccancel)
